@@ -191,6 +191,7 @@ type Exec struct {
 	concRandom bool
 	concRandN  uint64
 	gMark      int
+	quiesced   map[*G]bool
 }
 
 func (x *Exec) end(status, msg string) {
